@@ -14,7 +14,8 @@ Inductive trigger :=
   | TrLinkThroughLink     (* D17: the resolved path still has a symlink among its parents *)
   | TrClimbingLink        (* K3: a relative link target that lexically climbs above the root *)
   | TrDanglingParent      (* K4: a parent component of the name is a dangling symlink *)
-  | TrRelativeName.       (* D20: the operation names its path relatively *)
+  | TrRelativeName        (* D20: the operation names its path relatively *)
+  | TrHiddenViaLink.      (* D9: a name that is not lexically hidden resolves (through a symlink or a physical ..) into a hidden path *)
 
 (** evaluate a read-only monadic query on a world, discarding effects *)
 Definition query {A} (m : M A) (w : world) : option A :=
@@ -124,6 +125,25 @@ Section Trig.
                       | None => false end)
             (removelast (cands (clean n))).
 
+  (** D9 (layerings without a base prefix): the kernel resolves the name to a
+      key at or below a hidden path although the lexical check lets it pass *)
+  Definition hidden_via_link (n : str) (w : world) : bool :=
+    match c_prefix cfg with
+    | Some _ => false
+    | None =>
+        let hs := hidden_norm (c_hidden cfg) in
+        match is_hidden n hs with
+        | Some false =>
+            let hit k := existsb (fun h => key_prefixb (comps h) k) hs in
+            match resolve (st_fs (w_st w)) n true with
+            | WFound k _ => hit k
+            | WMissing pk name _ => hit (pk ++ [name])
+            | WErr _ => false
+            end
+        | _ => false
+        end
+    end.
+
   Definition triggers (o : op) (w : world) : list trigger :=
     (match follows_final o with
      | Some n => match resolved_kind n w with
@@ -152,5 +172,8 @@ Section Trig.
      then [TrLinkThroughLink] else []) ++
     (if existsb (fun n => dangling_parent n w) (op_paths o) then [TrDanglingParent] else []) ++
     (if existsb (fun n => negb (is_abs (clean n))) (op_paths o) then [TrRelativeName] else []) ++
+    (if existsb (fun n => hidden_via_link n w)
+                (op_paths o ++ match o with OStat n | OLstat n | OReadlink n | ORead n | OReaddir n => [n] | _ => [] end)
+     then [TrHiddenViaLink] else []) ++
     link_flags w.
 End Trig.
